@@ -25,7 +25,7 @@ def isInt (s : String) : Bool := s.toInt?.isSome
   timedwait <sec> <nsec> <timeout> <rc> → deadline <sec> <nsec> clk 1 condclk 1 ret <rc>|abort
   barrier <rc>                        → ret <rc> | abort
   must <wrapper> <rc>                 → ret 0 | abort -/
-def step (_ : Unit) : List String → Unit × List String
+def stepPure (_ : Unit) : List String → Unit × List String
   | ["stack", flags, req, ps, smin, rok, rcur, crc] =>
     if !(isNat flags && isNat req && isNat ps && isNat smin && isNat rok && isNat rcur && isInt crc) then ((), ["bad-op"]) else
     let e : Env := { pagesize := nat! ps, stackMin := nat! smin, rlimOk := nat! rok != 0, rlimCur := nat! rcur }
@@ -70,6 +70,75 @@ def step (_ : Unit) : List String → Unit × List String
   | [] => ((), [])
   | _ => ((), ["bad-op"])
 
-def modes : List (String × IO Unit) := [("threads", runLines () step)]
+/-- driver state: the process-wide `fast_clock_id` cache of `uv__hrtime` and the scripted
+    answers for CLOCK_MONOTONIC_COARSE -/
+structure St where
+  cache : Int := -1
+  res : Option Nat := some 4000000
+  lag : Nat := 0
+
+def b01 (b : Bool) : Nat := if b then 1 else 0
+
+/-- answers of the four calls of a wrapper, a fault `rc` injected at `call` -/
+def faults (names : List String) (call : String) (rc : Int) : Option (List Int) :=
+  if call = "none" then some (names.map fun _ => 0)
+  else if names.contains call then some (names.map fun n => if n = call then rc else 0) else none
+
+/-- stateful ops:
+  init <wrapper> <call|none> <rc>   → ret <rc>|abort live <n> [cfg <0|1>]   (thread: … created <0|1>)
+  condfault <setclock_rc> <timeout> → condfault ret <rc> [timedwait -110 not_early 1]
+  coarse <res_ns|fail> <lag_ns>     → ok
+  fastclock <sec> <nsec>            → fastclock clk <id> ms <uv_now>
+  hrtime <sec> <nsec>               → hrtime <ns> clk <id> -/
+def step (st : St) : List String → St × List String
+  | ["init", wrapper, call, rc] =>
+    if !isInt rc then (st, ["bad-op"]) else
+    let r := int! rc
+    let out : Option String :=
+      match wrapper with
+      | "cond" => (faults ["condattr_init", "condattr_setclock", "cond_init", "condattr_destroy"] call r).bind fun
+          | [a, b, c, d] => let (o, live, cfg) := condInit a b c d; some s!"{showOut o} live {b01 live} cfg {b01 cfg}"
+          | _ => none
+      | "rmutex" => (faults ["mutexattr_init", "mutexattr_settype", "mutex_init", "mutexattr_destroy"] call r).bind fun
+          | [a, b, c, d] => let (o, live, cfg) := rmutexInit a b c d; some s!"{showOut o} live {b01 live} cfg {b01 cfg}"
+          | _ => none
+      | "mutex" => (faults ["mutex_init"] call r).bind fun
+          | [a] => let (o, live) := simpleInit a; some s!"{showOut o} live {b01 live}" | _ => none
+      | "rwlock" => (faults ["rwlock_init"] call r).bind fun
+          | [a] => let (o, live) := simpleInit a; some s!"{showOut o} live {b01 live}" | _ => none
+      | "barrier" => (faults ["barrier_init"] call r).bind fun
+          | [a] => let (o, live) := simpleInit a; some s!"{showOut o} live {b01 live}" | _ => none
+      | "sem" => (faults ["sem_init"] call r).bind fun
+          | [a] => let (o, live) := if call = "none" then semInit 0 0 else semInit (-1) a
+                   some s!"{showOut o} live {b01 live}" | _ => none
+      | "thread" => (faults ["attr_init", "attr_setstacksize"] call r).bind fun
+          | [a, b] => match attrSetup a b with
+            | some o => some s!"{showOut o} created 0"
+            | none => some "ret 0 created 1"
+          | _ => none
+      | _ => none
+    (st, [out.getD "bad-op"])
+  | ["condfault", rc, tmo] =>
+    if !(isInt rc && isNat tmo) then (st, ["bad-op"]) else
+    match (condInit 0 (int! rc) 0 0).1 with
+    | .ret 0 => (st, [s!"condfault ret 0 {showOut (timedwaitMap ETIMEDOUT) |>.replace "ret" "timedwait"} not_early 1"])
+    | .ret e => (st, [s!"condfault ret {e}"])
+    | .abort => (st, ["abort"])
+  | ["coarse", res, lag] =>
+    if !((isNat res || res = "fail") && isNat lag) then (st, ["bad-op"]) else
+    ({ st with res := if res = "fail" then none else some (nat! res), lag := nat! lag }, ["ok"])
+  | ["fastclock", sec, nsec] =>
+    if !(isNat sec && isNat nsec) then (st, ["bad-op"]) else
+    let (id, cache) := hrtimeClock true st.cache st.res
+    let now := hrtime (nat! sec) (nat! nsec)
+    let t := if id = CLOCK_MONOTONIC_COARSE then (if now > st.lag then now - st.lag else 0) else now
+    ({ st with cache := cache }, [s!"fastclock clk {id} ms {hrtime (t / NANOSEC) (t % NANOSEC) / 1000000}"])
+  | ["hrtime", sec, nsec] =>
+    if !(isNat sec && isNat nsec) then (st, ["bad-op"]) else
+    let (id, _) := hrtimeClock false st.cache st.res
+    (st, [s!"hrtime {hrtime (nat! sec) (nat! nsec)} clk {id}"])
+  | ws => (st, (stepPure () ws).2)
+
+def modes : List (String × IO Unit) := [("threads", runLines ({} : St) step)]
 
 end Drivers.C20
